@@ -62,9 +62,15 @@ type c09Case struct {
 	Recs      []gen.Rec      `json:"recs"`
 	Mal       malform        `json:"mal"`
 	Schedules []run.Schedule `json:"schedules"`
+	// Sample > 0: the subject is repository sample number Sample (schema and input) instead of Shape/Recs
+	Sample int `json:"sample,omitempty"`
 }
 
 func (c c09Case) input() []byte {
+	if c.Sample > 0 {
+		_, in, _, _ := sampleOf(c.Sample)
+		return c.Mal.apply(in)
+	}
 	in := c.Mal.apply(c.Shape.Render(c.Recs))
 	if c.Shape.BOM {
 		in = append([]byte{0xEF, 0xBB, 0xBF}, in...)
@@ -155,6 +161,20 @@ func drawSchedule(t *rapid.T, label string, in []byte, cuts map[string][]int) ru
 
 func genC09(t *rapid.T) c09Case {
 	c := c09Case{}
+	if rapid.IntRange(0, 7).Draw(t, "sampleArm") == 0 {
+		if c.Sample = drawSample(t, "sample"); c.Sample > 0 {
+			_, base, name, _ := sampleOf(c.Sample)
+			c.Shape = gen.Shape{Format: sampleFormat(name)}
+			c.Mal = drawMalform(t, len(base))
+			in := c.input()
+			cuts := interestingCuts(c.Shape, in)
+			n := rapid.IntRange(2, 3).Draw(t, "nsched")
+			for i := 0; i < n; i++ {
+				c.Schedules = append(c.Schedules, drawSchedule(t, fmt.Sprintf("s%d", i), in, cuts))
+			}
+			return c
+		}
+	}
 	c.Shape = gen.DrawShape(t, gen.ShapeOpts{AllowReplaceQuotes: true, Encodings: []string{"", "", "utf-8", "iso-8859-1", "windows-1252"}})
 	c.Shape.BOM = rapid.IntRange(0, 3).Draw(t, "bom") == 0
 	opts := gen.ValueOpts{}
@@ -189,7 +209,17 @@ func maskedKey(format string) func(run.Step) string {
 }
 
 func checkC09(c c09Case) obs.Result {
-	sch, err := run.NewSchema(c.Shape.Schema())
+	schemaText := ""
+	if c.Sample > 0 {
+		st, _, _, ok := sampleOf(c.Sample)
+		if !ok {
+			return obs.Result{Excluded: "no such sample"}
+		}
+		schemaText = st
+	} else {
+		schemaText = c.Shape.Schema()
+	}
+	sch, err := run.NewSchema(schemaText)
 	if err != nil {
 		return obs.Violationf("generated schema rejected: %v", err)
 	}
@@ -207,6 +237,9 @@ func checkC09(c c09Case) obs.Result {
 		}
 	}
 	classes := []string{"format=" + c.Shape.Format}
+	if c.Sample > 0 {
+		classes = append(classes, "repo-sample")
+	}
 	if c.Shape.Encoding != "" {
 		classes = append(classes, "enc="+c.Shape.Encoding)
 	}
